@@ -278,6 +278,9 @@ func (i IRIs) IsCollection() bool {
 // and ensures IRIs implements the Collection interface
 func (i *IRIs) Append(it ...Item) error {
 	for _, ob := range it {
+		if IsNil(ob) {
+			continue
+		}
 		if (*i).Contains(ob.GetLink()) {
 			continue
 		}
@@ -300,7 +303,7 @@ func (i *IRIs) Count() uint {
 
 // Contains verifies if IRIs array contains the received one
 func (i IRIs) Contains(r Item) bool {
-	if len(i) == 0 {
+	if len(i) == 0 || IsNil(r) {
 		return false
 	}
 	for _, iri := range i {
